@@ -38,7 +38,7 @@ DEFS = {
     "hctx": "lambda k: at(L2, CTX)[k]",  # contexts at the head of the main loop (inside L3)
     "a_of": "lambda j: at(pre_L2, results[j].start)",
     "b_of": "lambda j: at(pre_L2, results[j].end)",
-    "ext": "lambda k: ABSK[k] + len(ctx(k).value)",
+    "ext": "lambda k: EXTK[k]",  # GHOST absolute end of ctx(k): ABSK[k] + len(ctx(k).value)  (clause J-ext)
     "last": "lambda p: child_at(p, nchildren(p) - 1)",
     "attached": "lambda: hit.parent is not None",
     "is_context": "lambda: hit.parent is not None and node == hit",
@@ -49,7 +49,8 @@ DEFS = {
 MAIN_INV = {
     # ---- bookkeeping
     "J0-ctx": "len(CTX) == len(stack) + 1 and CTX[len(stack)] == node and forall(range(len(stack)), lambda k: CTX[k] == stack[k])",
-    "J0-shape": "len(ABSK) == len(stack) + 1 and len(CIDX) == len(stack) + 1 and 0 <= i <= len(results)",
+    "J0-shape": "len(ABSK) == len(stack) + 1 and len(CIDX) == len(stack) + 1 and len(EXTK) == len(stack) + 1 and 0 <= i <= len(results)",
+    "J-ext": "forall(range(len(stack) + 1), lambda k: EXTK[k] == ABSK[k] + len(ctx(k).value))",
     "J5-D-nonneg": "DABS >= 0",
     "J0-untouched": "forall(range(i, len(results)), lambda j: results[j].start == a_of(j) and results[j].end == b_of(j) and results[j].parent is None "
     "and nchildren(results[j]) == at(pre_L2, nchildren(results[j])))",
@@ -110,7 +111,7 @@ MAIN_STEP = {
     "and hit.value == octx(pk()).value and hit.type == octx(pk()).type))",
     # the chosen parent is the innermost still-open context that contains the hit
     "E4-innermost-containing": "implies(at(pre_L2, hit.end) > old.DABS, at(pre_L2, hit.end) <= old.ABSK[pk()] + len(octx(pk()).value) "
-    "and forall(range(pk() + 1, len(old.stack) + 1), lambda k: at(pre_L2, hit.end) > old.ABSK[k] + len(octx(k).value)))",
+    "and forall(range(pk() + 1, len(old.stack) + 1), lambda k: at(pre_L2, hit.end) > old.EXTK[k]))",
     "E4-contexts-closed": "implies(at(pre_L2, hit.end) > old.DABS, forall(range(pk() + 1), lambda k: ctx(k) == octx(k) and ABSK[k] == old.ABSK[k]))",
     "E4-shadowed-keeps-state": "implies(at(pre_L2, hit.end) <= old.DABS, len(stack) == len(old.stack) and node == old.node and DABS == old.DABS)",
     # decoded (searched recursively, closes nothing below it) iff the value differs from the covered text ignoring case or it has supplied children
@@ -124,7 +125,7 @@ POP_INV = {
     "W-prefix": "len(stack) <= at(L2, len(stack)) and forall(range(len(stack)), lambda k: stack[k] == at(L2, stack)[k]) and node == hctx(len(stack))",
     "W-offset": "offset == ABSK[len(stack)]",
     "W-popped-implies-later-start": "implies(len(stack) < at(L2, len(stack)), hit.start > ABSK[len(stack)])",
-    "W-popped-too-short": "forall(range(len(stack) + 1, at(L2, len(stack)) + 1), lambda k: hit.end > ABSK[k] + len(hctx(k).value))",
+    "W-popped-too-short": "forall(range(len(stack) + 1, at(L2, len(stack)) + 1), lambda k: hit.end > EXTK[k])",
 }
 
 contract(
@@ -163,6 +164,7 @@ contract(
             ghosts={
                 "CTX": Ghost("list[Node]", "[node]", "old.CTX[: len(stack)] + [node]"),
                 "ABSK": Ghost("list[int]", "[0]", "old.ABSK[: len(stack)] + [offset]"),
+                "EXTK": Ghost("list[int]", "[len(node.value)]", "old.EXTK[: len(stack)] + [offset + len(node.value)]"),
                 "CIDX": Ghost("list[int]", "[0]", "(old.CIDX[: len(stack)] + [old.i]) if node == hit else old.CIDX[: len(stack) + 1]"),
                 "DABS": Ghost("int", "0", "(hit.end + offset) if (hit.parent is not None and node != hit) else old.DABS"),
             },
